@@ -111,6 +111,16 @@ pub fn draw_options(d: &Draw, allow_big_w: bool, len_hint: Option<usize>) -> Opt
         let k = d.range("swarm.opt.rot", o.opts.len() as u32) as usize;
         o.opts.rotate_left(k);
     }
+    if d.chance("swarm.opt.repeat", 1, 12) {
+        // an option named twice: the later value is the one in force (and the one lengths were drawn for)
+        if let Some(i) = o.opts.iter().position(|(k, _)| k == "blksize" || k == "windowsize") {
+            let (k, v) = o.opts[i].clone();
+            let other = if k == "blksize" { d.pick("swarm.opt.repeat.blksize", &["600", "8", "1500", "65464"]) } else { d.pick("swarm.opt.repeat.windowsize", &["1", "3", "9", "64"]) };
+            if other != v {
+                o.opts.insert(d.range("swarm.opt.repeat.at", i as u32 + 1) as usize, (k, other.to_string()));
+            }
+        }
+    }
     if !o.opts.is_empty() && d.chance("swarm.opt.case", 1, 4) {
         // option names are case-insensitive; an unknown option in between is ignored
         for (k, _) in o.opts.iter_mut() {
@@ -164,7 +174,9 @@ fn peer_timeout(d: &Draw, tmo_s: u64) -> Ns {
 /// A second client that downloads a small file with default options while something else is going on.
 pub fn add_bystander(d: &Draw, w: &Arc<World>, srv: &ServerCfg, dir: &std::path::Path) -> ((usize, Ns), XferSpec) {
     let side = Arc::new(content(300 + d.range("bystander.len", 900) as usize, 55));
-    let path = dir.join("side.bin");
+    // served from wherever read requests are served from
+    let _ = dir;
+    let path = srv.send_dir.clone().unwrap_or_else(|| srv.dir.clone()).join("side.bin");
     std::fs::write(&path, &*side).expect("write side file");
     let mut xc = XferCfg::new(srv.addr(), "side.bin");
     xc.resend_request = false;
@@ -300,13 +312,12 @@ pub fn xfer(prop: &'static str, tier: Tier, w: &Arc<World>) -> Scn {
     srv.v6 = d.chance("swarm.ipv6", 1, 8);
     srv.arg_rot = d.range("swarm.arg_rotation", 8) as usize;
     srv.keep_on_error = d.chance("swarm.flag.keep_on_error", 1, 6);
+    let mut dir_layout: Option<(u32, std::path::PathBuf)> = None;
     if d.chance("swarm.distinct_dirs", 1, 4) {
         // explicit send and receive directories next to a general directory that holds a decoy of the same name
         let base = sandbox.dir("base");
         std::fs::write(base.join("data.bin"), content(777, 251)).expect("decoy");
-        srv.dir = base;
-        srv.send_dir = Some(dir.clone());
-        srv.recv_dir = Some(dir.clone());
+        dir_layout = Some((d.range("swarm.dir_layout", 3), base));
     }
     let dupn: u64 = if d.chance("swarm.dup", 1, 6) { 1 + d.range("swarm.dup.n", 2) as u64 } else { 0 };
     if dupn > 0 {
@@ -391,6 +402,33 @@ pub fn xfer(prop: &'static str, tier: Tier, w: &Arc<World>) -> Scn {
         len = (65535 + d.range("swarm.wrap.blocks_past", 4) as usize) * 8 + d.pick("swarm.wrap.extra", &[4usize, 0, 7]);
         wrap_class = true;
     }
+    // the direction is final here
+    if let Some((layout, base)) = dir_layout {
+        match layout {
+            0 => {
+                srv.dir = base;
+                srv.send_dir = Some(dir.clone());
+                srv.recv_dir = Some(dir.clone());
+            }
+            1 => {
+                // only the directory this transfer needs is named; the other one falls back to -d (the decoy)
+                srv.dir = base;
+                if kind == Kind::Upload {
+                    srv.recv_dir = Some(dir.clone());
+                } else {
+                    srv.send_dir = Some(dir.clone());
+                }
+            }
+            _ => {
+                // -d is the directory this transfer needs; the flag for the other direction names the decoy
+                if kind == Kind::Upload {
+                    srv.send_dir = Some(base);
+                } else {
+                    srv.recv_dir = Some(base);
+                }
+            }
+        }
+    }
     let mut oc = oc0;
     for o in oc.opts.iter_mut() {
         if o.0 == "tsize" {
@@ -457,6 +495,8 @@ pub fn xfer(prop: &'static str, tier: Tier, w: &Arc<World>) -> Scn {
                 fc.recv_err_w = if d.chance("swarm.fault.recv_err", 1, 4) { 30 } else { 0 };
                 // a transiently failing send syscall: the transfer may die, it must not go on corrupted
                 fc.send_err_w = if d.chance("swarm.fault.send_err", 1, 4) { 40 } else { 0 };
+                // a failing or filling disk: whatever is acknowledged must be in the file all the same
+                fc.disk_w = if prop == "C02" && d.chance("swarm.fault.disk", 1, 5) { 80 } else { 0 };
             }
             // adversarial acknowledgements / stray packets
             if d.chance("swarm.adversary", 1, 2) {
